@@ -32,7 +32,9 @@ for id in "$@"; do
   cargo test -p cao-lang --offline --test seed_demo >"$W/demo0.txt" 2>&1; d0=$?
   echo "without change, demo: exit=$d0  $(grep -E '^test result' "$W/demo0.txt")" >> "$log"
   rm -f cao-lang/tests/seed_demo.rs
-  if [ $s -eq 0 ] && [ $d1 -ne 0 ] && [ $d0 -eq 0 ] && grep -q 'test result: FAILED' "$W/demo1.txt"; then
+  grep -E "signal|free\(\)|SIGSEGV|SIGABRT" "$W/demo1.txt" | head -3 >> "$log"
+  # the demo fails with the change: a FAILED summary, or the test binary died (abort / segfault) after it was built
+  if [ $s -eq 0 ] && [ $d1 -ne 0 ] && [ $d0 -eq 0 ] && { grep -q 'test result: FAILED' "$W/demo1.txt" || grep -q 'Running tests/seed_demo.rs' "$W/demo1.txt"; }; then
      echo "CONFIRMED" >> "$log"; echo "$id CONFIRMED ($pass)"
   else
      echo "NOT CONFIRMED" >> "$log"; echo "$id NOT CONFIRMED (suite=$s demo_with=$d1 demo_without=$d0)"; rc=1
